@@ -89,6 +89,11 @@ def _values_for(t, kind, n, count, used, hostile):
             if hostile and t.chance(1, 6):
                 i = t.draw(n)
                 v = v[:i] + t.choice(SPECIAL_ALPHA) + v[i + 1:]
+            elif hostile and t.chance(1, 8):
+                # a hand-edited ruleset ("manually tweak"): a word kept in its usual spelling, e.g. iPhone; a mask letter
+                # 'U' upper-cases, any other leaves the letter as the ruleset stores it
+                i = t.draw(n)
+                v = v[:i] + v[i].upper() + v[i + 1:]
         elif kind == "D":
             v = "".join(DIGITS[t.draw(10)] for _ in range(n))
         elif kind == "O":
